@@ -14,7 +14,10 @@
 (*     cost of metric m (d: discrete) observed on the real model, as the   *)
 (*     integer round(cost * u); orig[i] = [m, c, ok] the metric computed   *)
 (*     from scratch on the ORIGINAL network; succ[j] = [e, v, obs] the     *)
-(*     same observations after writing magnitude v into element e.         *)
+(*     same observations after writing magnitude v into element e;         *)
+(*     els[j] = [k, n, i, tr, v] the trainable-parameter entries of the    *)
+(*     real model (v = magnitude at this state) and obs[i].nz[j] /         *)
+(*     obs[i].gfin the gradient bits of metric i at this state.            *)
 (*                                                                         *)
 (* kind "probe"  [method, metric, arch, flags, ev, c, fin, ng, pert, inp,  *)
 (*                E, pairs, open]                                          *)
@@ -30,6 +33,16 @@
 (* costs are equal / ordered up to 1e-5 relative + 2 units (LatTol).       *)
 (* "probe": up to 5000 units = 1e-4 .. 1e-5 of the full scale (Tol); an    *)
 (* increase "raises the metric" only if it does so by more than Tol.       *)
+(*                                                                         *)
+(* GRADIENT CLAUSE.  Continuous cost: pointwise - an element whose finite  *)
+(* increase (probe: |x| + 0.6; lattice: the Raise successor) raises the    *)
+(* cost must have a non-zero gradient.  DISCRETE cost (a step function):   *)
+(* on the lattice - every trainable element that is RELEVANT               *)
+(* (CostDeps!DiscRelevant: lifting it across the threshold changes         *)
+(* MaskAlgebra!Kept / the alive set, hence the discrete cost, in one of    *)
+(* the corner contexts of the other elements) must have a non-zero         *)
+(* gradient at EVERY observed parameter value.  Elements whose magnitude   *)
+(* is exactly 0 are exempt in lattice states (d|x|/dx = 0 at 0 in torch).  *)
 (***************************************************************************)
 EXTENDS CostDeps, Json, IOUtils
 
@@ -50,6 +63,8 @@ Chain(vs) == IF \A i \in DOMAIN vs : vs[i] = "ok" THEN "ok"
 InDomain(a) == SearchLayers(a) # {} /\ Supported(a)
 CheckFilter(t) == IF InDomain(t.arch) THEN "ok" ELSE "skip:architecture outside the supported grammar"
 
+MaskKinds == {"a", "b", "g"}
+
 (* ------------------------------ lattice states -------------------------- *)
 HasL(t, n) == \E i \in DOMAIN t.L : t.L[i].n = n
 LRec(t, n) == t.L[CHOOSE i \in DOMAIN t.L : t.L[i].n = n]
@@ -65,6 +80,7 @@ LatWellFormed(t) ==
     /\ WellFormedState(a, StateOf(t))
     /\ \A i \in DOMAIN t.obs : Applicable(t.obs[i].m, a)
     /\ \A j \in DOMAIN t.succ : Len(t.succ[j].obs) = Len(t.obs) /\ Len(t.succ[j].e) = 3
+    /\ \A i \in DOMAIN t.obs : Len(t.obs[i].nz) = Len(t.els)
 OrigIdx(t, m) == CHOOSE i \in DOMAIN t.orig : t.orig[i].m = m
 HasOrig(t, m) == \E i \in DOMAIN t.orig : t.orig[i].m = m
 El(s) == <<s.e[1], s.e[2], s.e[3]>>
@@ -90,6 +106,23 @@ CheckLat(t) ==
                         t.obs[p[2]].c > t.succ[p[1]].obs[p[2]].c + LatTol(t.obs[p[2]].c)}
         badOpen == First(nO, LAMBDA i : FullyOpen(a, X) /\ HasOrig(t, t.obs[i].m) /\ t.orig[OrigIdx(t, t.obs[i].m)].ok /\
                         ~Within(t.obs[i].c, t.obs[i].u * t.orig[OrigIdx(t, t.obs[i].m)].c, LatTol(t.obs[i].c)))
+        \* gradients at this lattice state
+        nL == Len(t.els)
+        ElOf(j) == <<t.els[j].k, t.els[j].n, t.els[j].i>>
+        Live(j) == t.els[j].tr /\ t.els[j].v # 0 /\ t.els[j].k \in MaskKinds
+        sh == ShareMap(a)
+        RelSmooth == [j \in 1..nL |-> DiscRelevant("ops", a, sh, ElOf(j))]
+        RelGap8   == [j \in 1..nL |-> DiscRelevant("gap8_latency", a, sh, ElOf(j))]
+        Rel(i, j) == IF Smooth(t.obs[i].m) THEN RelSmooth[j] ELSE RelGap8[j]
+        GPairs == {<<i, j>> : i \in 1..nO, j \in 1..nL}
+        badGFin == First(nO, LAMBDA i : t.obs[i].ok /\ ~t.obs[i].gfin)
+        badGradD == {p \in GPairs : t.obs[p[1]].d /\ t.obs[p[1]].ok /\ Live(p[2]) /\ ~t.obs[p[1]].nz[p[2]] /\ Rel(p[1], p[2])}
+        RaisedBy(i, j) == \E s \in DOMAIN t.succ : El(t.succ[s]) = ElOf(j) /\ Raised(s) /\ t.succ[s].obs[i].ok /\
+                              t.succ[s].obs[i].c > t.obs[i].c + LatTol(t.obs[i].c)
+        badGradC == {p \in GPairs : ~t.obs[p[1]].d /\ t.obs[p[1]].ok /\ Live(p[2]) /\ ~t.obs[p[1]].nz[p[2]] /\ RaisedBy(p[1], p[2])}
+        driftGrad == {p \in GPairs : t.obs[p[1]].ok /\ Live(p[2]) /\ Smooth(t.obs[p[1]].m) /\
+                        t.obs[p[1]].nz[p[2]] # (IF t.obs[p[1]].d THEN PredDiscNonZero("identity", a, X, ElOf(p[2]))
+                                                               ELSE PredNonZero(a, ElOf(p[2])))}
         \* predictions
         driftCost == First(nO, LAMBDA i : ContExact(a) /\
                         ~Within(t.obs[i].c, Cost(t.obs[i].m, a, X, t.obs[i].d), LatTol(t.obs[i].c)))
@@ -109,16 +142,27 @@ CheckLat(t) ==
          THEN "C12.open " \o ObsStr(t.obs[badOpen]) \o ": all masks fully open cost " \o ToString(t.obs[badOpen].c)
                   \o "/" \o ToString(t.obs[badOpen].u) \o ", the original network costs "
                   \o ToString(t.orig[OrigIdx(t, t.obs[badOpen].m)].c)
+    ELSE IF badGFin # 0 THEN "C12.gradfinite " \o ObsStr(t.obs[badGFin]) \o ": non-finite gradient at a lattice state"
+    ELSE IF badGradD # {}
+         THEN LET p == CHOOSE p \in badGradD : TRUE IN
+              "C12.gradient " \o ObsStr(t.obs[p[1]]) \o ": element " \o ToString(ElOf(p[2])) \o " (magnitude " \o ToString(t.els[p[2]].v)
+                  \o "/10) gets a zero gradient although lifting it across the threshold changes the kept set / the discrete cost in a corner context"
+    ELSE IF badGradC # {}
+         THEN LET p == CHOOSE p \in badGradC : TRUE IN
+              "C12.gradient " \o ObsStr(t.obs[p[1]]) \o ": raising element " \o ToString(ElOf(p[2])) \o " raises the cost but its gradient is zero"
     ELSE IF driftCost # 0
          THEN "drift:cost " \o ObsStr(t.obs[driftCost]) \o ": observed " \o ToString(t.obs[driftCost].c) \o ", model "
                   \o ToString(Cost(t.obs[driftCost].m, a, X, t.obs[driftCost].d)) \o " (units 1/" \o ToString(t.obs[driftCost].u) \o ")"
     ELSE IF driftOrig # 0
          THEN "drift:orig " \o t.orig[driftOrig].m \o ": from-scratch cost of the original network " \o ToString(t.orig[driftOrig].c)
                   \o ", model " \o ToString(OrigCost(t.orig[driftOrig].m, a))
+    ELSE IF driftGrad # {}
+         THEN LET p == CHOOSE p \in driftGrad : TRUE IN
+              "drift:support " \o ObsStr(t.obs[p[1]]) \o ": gradient of element " \o ToString(ElOf(p[2])) \o " non-zero = "
+                  \o ToString(t.obs[p[1]].nz[p[2]]) \o ", the straight-through model predicts the opposite"
     ELSE "ok"
 
 (* ------------------------------ probes ---------------------------------- *)
-MaskKinds == {"a", "b", "g"}
 \* kinds the property's gradient clause speaks about: mask elements and weight-precision coefficients
 ClauseKinds == MaskKinds \cup {"w"}
 
@@ -160,6 +204,11 @@ CheckProbe(t) ==
         badGFin == First(nE, LAMBDA i : t.E[i].hg /\ ~t.E[i].fin)
         GradFails(i) == t.E[i].tr /\ t.E[i].k \in ClauseKinds /\ Raises(t, t.E[i]) /\ ~(t.E[i].hg /\ t.E[i].nz)
         badGrad == First(nE, LAMBDA i : GradFails(i) /\ ~F46Sig(t, t.E[i]))
+        \* discrete cost: every RELEVANT trainable mask element (decided on the lattice by CostDeps!DiscRelevant) must have a
+        \* non-zero gradient at this parameter value
+        shp == ShareMap(t.arch)
+        badGradDisc == First(nE, LAMBDA i : t.method = "pit" /\ t.disc /\ t.E[i].tr /\ t.E[i].k \in MaskKinds /\
+                             ~(t.E[i].hg /\ t.E[i].nz) /\ DiscRelevant(t.metric, t.arch, shp, <<t.E[i].k, t.E[i].n, t.E[i].i>>))
         knownGrad == First(nE, LAMBDA i : GradFails(i) /\ F46Sig(t, t.E[i]))
         \* SuperNet branch coefficients are architectural parameters too: a gradient must at least REACH them
         badReach == First(nE, LAMBDA i : t.E[i].tr /\ t.E[i].k = "sn" /\ Raises(t, t.E[i]) /\ ~t.E[i].hg)
@@ -198,6 +247,9 @@ CheckProbe(t) ==
          THEN "C12.gradient " \o t.method \o "/" \o t.metric \o ": increasing " \o ElemStr(t.E[badGrad]) \o " raises the cost from "
                   \o ToString(t.c) \o " to " \o ToString(t.E[badGrad].cu) \o " but its gradient is "
                   \o (IF t.E[badGrad].hg THEN "zero" ELSE "missing")
+    ELSE IF badGradDisc # 0
+         THEN "C12.gradient " \o t.method \o "/" \o t.metric \o " (discrete): " \o ElemStr(t.E[badGradDisc]) \o " gets a "
+                  \o (IF t.E[badGradDisc].hg THEN "zero" ELSE "missing") \o " gradient although lifting it across the threshold changes the kept set / the discrete cost in a corner context"
     ELSE IF badReach # 0
          THEN "C12.gradient " \o t.method \o "/" \o t.metric \o ": increasing " \o ElemStr(t.E[badReach]) \o " raises the cost from "
                   \o ToString(t.c) \o " to " \o ToString(t.E[badReach].cu) \o " but no gradient reaches it"
